@@ -50,7 +50,7 @@ namespace std {
       if (b) ::operator delete((void*)b);
       b = nb; cap = nc;
     }
-    for (size_t i = 0; i < m; ++i) b[n + i] = s[i];
+    { char* dst = b + n; for (size_t i = 0; i < m; ++i) dst[i] = s[i]; }
     n += m;
     st &= ~ios_base::eofbit;
   }
@@ -118,10 +118,12 @@ namespace std {
   istream& istream::read(char* buf, streamsize n) {
     s_->gc = 0;
     if (s_->st != 0) { s_->st |= failbit; return *this; }
-    while ((streamsize)s_->gc < n) {
-      if (s_->rpos >= s_->n) { s_->st |= eofbit | failbit; break; }
-      buf[s_->gc++] = s_->b[s_->rpos++];
+    size_t rp = s_->rpos, avail = s_->n, k = 0; const char* src = s_->b;
+    for (; (streamsize)k < n; ++k) {
+      if (rp >= avail) { s_->st |= eofbit | failbit; break; }
+      buf[k] = src[rp++];
     }
+    s_->rpos = rp; s_->gc = k;
     return *this;
   }
   bool istream::rdulong_(unsigned long& v, bool& neg) {
